@@ -542,7 +542,7 @@ def type_collision(model_events, k):
 
 # ================================================================================================ part B: gate histories
 B_FAMILIES = ["eq-angle-diff-duration", "eq-duration-diff-angle", "cr-tcr", "interleaved", "multi-gateset", "warm-exact",
-              "typed-theta", "signed-zero-theta", "periodic-angle", "random"]
+              "typed-theta", "signed-zero-theta", "periodic-angle", "tiny-angles", "tiny-angles", "random"]
 SINGLE = ["X", "SX", "single_qubit_gate"]
 TWO = ["CNOT", "CNOT_inv", "ECR", "ECR_inv", "CR"]
 NOISE = ["relaxation", "bitflip", "depolarizing"]
@@ -650,8 +650,10 @@ def gen_gate_case(rng, family, set_descs, idx):
         # angles that differ by whole periods of the trigonometric integrands (2 pi, 4 pi, pi): equal as rotations modulo a period,
         # different as pulses - nothing computed for one may be reused for the other
         g = pick()
-        base_t = rng.choice([math.pi / 2, math.pi / 4, -math.pi / 2, 0.5, rng.uniform(-3, 3)])
+        base_t = rng.choice([math.pi / 2, math.pi / 4, -math.pi / 2, 0.5, rng.uniform(-3, 3), -1.0])
         shifts = [0.0, 4 * math.pi, -4 * math.pi, 2 * math.pi, 8 * math.pi, math.pi]
+        if base_t == -1.0:
+            shifts = [0.0, -1.0, -1.0, 1.0]          # -1.0 and -2.0: different angles with EQUAL hash in CPython (hash(-1) == -2)
         rest = gate_args("single_qubit_gate", rng)
         # ... including pairs that are congruent EXACTLY in floating point: the reduced angle is computed from the large one
         big = base_t + rng.choice(shifts[1:5])
@@ -669,6 +671,14 @@ def gen_gate_case(rng, family, set_descs, idx):
         final = rng.choice([[g, "single_qubit_gate", dict(rest, theta=fl(rng.choice(exact)))],
                             [g, "single_qubit_gate", dict(rest, theta=fl(base_t + rng.choice(shifts[1:])))],
                             [g, "CR", gate_args("CR", rng, theta=fl(base_t + rng.choice(shifts[1:])))]])
+    elif family == "tiny-angles":
+        # many small rotation angles (log-uniform in [1e-9, 4e-4]) on one gate set: each must be reproducible after a seed like any other
+        g = pick()
+        rest = gate_args("single_qubit_gate", rng)
+        for _ in range(rng.randint(6, 14)):
+            th = fl(rng.choice([-1, 1]) * 10.0 ** rng.uniform(-9, -3.4))
+            hist.append([g, "single_qubit_gate", dict(rest, theta=th)])
+        final = [g, "single_qubit_gate", dict(rest, theta=fl(rng.choice([-1, 1]) * 10.0 ** rng.uniform(-9, -3.4)))]
     elif family == "signed-zero-theta":
         g = pick()
         zs = [fl(0.0), fl(-0.0), fl(0, "int"), fl(-0.0, "np.float64")]
@@ -990,6 +1000,21 @@ def run_sim_case(case, ex, pool, pristine=None):
             out["fail"] = ("the circuit object was edited in place between two runs of one simulator (read-out removed, x / rz / sx appended, read "
                            "out again): the second run differs from the run of new objects on a new circuit with the same content after the "
                            "same seed - the simulator kept something of the earlier run")
+    if out["fail"] is None:
+        # the caller changes the SAME device-parameter mapping in place between two runs of one simulator (a noise sweep): the
+        # second run uses the new values - exactly what a new simulator returns for them after the same seed
+        qc = build_circuit(case)
+        r9a, _ = run(sim, case["seed"])
+        dev["T1"] = dev["T1"] * 0.37                      # rebinding an entry
+        dev["p"][min(1, n - 1)] *= 3.0                    # writing into an array
+        dev["p_int"] = dev["p_int"] * 2.0
+        r9, st9 = run(sim, case["seed"])
+        sim10 = MrAndersonSimulator(gates=fresh_gate_set(case["set"]), CircuitClass=getattr(cm, case["cls"]), parallel=False)
+        r10, st10 = run(sim10, case["seed"])
+        if r9 != r10 or not same_state(st9, st10):
+            out["fail"] = ("the device-parameter mapping was changed in place between two runs of one simulator (T1 rebound, p[k] and p_int "
+                           "rescaled): the second run differs from the run of a new simulator on the changed mapping after the same seed - "
+                           "the simulator kept the earlier calibration")
     out.update(r1=r1, r2=r2, r3=r3, calls=calls, draws=draws, cache_growth=cache_after - cache_before)
     return out
 
